@@ -74,6 +74,10 @@ def run(ctx):
         for nconv in (1, 2):
             for maxit in (21, 31, 35):
                 add(0, gen.VARIANTS[1], maxit, nconv, sc + [sc[-1]] * 4, 'special')
+    # relative change EXACTLY 1e-4 in binary64 (and one ulp beside): `<` fails where `<=` would pass
+    for sc in gen.conv_threshold_scripts(rng):
+        for nconv in (1, 2):
+            add(0, gen.VARIANTS[cid % 4], 45, nconv, sc, 'threshold')
     res = ctx.component('K-CTRL', cases, keys={'status', 'rep'})
     # real (unscripted) trajectories reaching CONVERGED: nconv small, long maxit
     real_cases = []
